@@ -82,6 +82,18 @@ def dumpOk (cap : Nat) (d : Dump) : Bool :=
   decide (d.size ≤ cap) && d.size == total d.filo && d.len == d.filo.length &&
   nodupKeys (d.filo.map (·.key)) && d.keys == sortNat (d.filo.map (·.key)) && d.rev
 
+/-- which clause of `dumpOk` an observation violates first (the `shape=` of the report).
+All comparisons are on unbounded naturals: a resident total beyond 2^64, or a `Size()`
+that wrapped, is seen as what it is. -/
+def dumpShape (cap : Nat) (d : Dump) : String :=
+  if total d.filo > cap then "resident-total-exceeds-capacity"
+  else if d.size != total d.filo then "size-not-resident-total"
+  else if d.len != d.filo.length then "len-not-resident-count"
+  else if !nodupKeys (d.filo.map (·.key)) then "duplicate-key"
+  else if d.keys != sortNat (d.filo.map (·.key)) then "index-list-mismatch"
+  else if !d.rev then "fifo-not-reverse-of-filo"
+  else "ok"
+
 /-- The C16 step clauses on one sequential operation, from what the cache
 itself reported: the operation's result and the quiescent observations before
 (`d1`) and after (`d2`) it.  `none` = fine, `some shape` = violated.  They say,
